@@ -12,6 +12,7 @@ contract".
 -/
 import KDVerif.Lemmas.Geometry
 import KDVerif.Lemmas.GeometryRearrange
+import KDVerif.Lemmas.GeometryGrid
 import KDVerif.Gen.Patterns
 import Mathlib.Tactic.Ring
 import Mathlib.Tactic.FieldSimp
@@ -39,7 +40,7 @@ theorem crop_in_bounds (c : CropCfg) (h w : Int) (t t' : Tape) (o : CropOut)
     exact ⟨rfl, rfl, rfl, ⟨this.1, this.2.1, this.2.2.1, this.2.2.2.1⟩, this.2.2.2.2.1, this.2.2.2.2.2⟩
 
 example : randomCrop ⟨8, 8, .all 2, false⟩ 10 12 [.ints 0 7 3, .ints 0 9 5]
-    = .ok (⟨[⟨2, 2, 2, 2⟩], 14, 16, ⟨3, 5, 8, 8⟩⟩, []) := by decide
+    = .ok (⟨[⟨2, 2, 2, 2⟩], 14, 16, ⟨3, 5, 8, 8⟩⟩, []) := by rfl
 
 /-- **The code rejects exactly the images that are more than one pixel too small** (its own `ValueError`). -/
 theorem crop_rejects (h w th tw : Int) (t : Tape) :
@@ -176,9 +177,11 @@ theorem two_crop_in_bounds (c : CropCfg) (omin omax : Rat) (tries : Option Nat) 
       exact ⟨rfl, rfl, rfl, ⟨hb.1, hb.2.1, hb.2.2.1, hb.2.2.2.1⟩, hb.2.2.2.2.1, hb.2.2.2.2.2,
         hl'.1, hl'.2.1, hl'.2.2.1, hl'.2.2.2.1, hl'.2.2.2.2.1, hl'.2.2.2.2.2⟩
 
-example : ∃ o t', twoCrop ⟨4, 4, .none, false⟩ (1 / 2) 1 (some 3) 10 6 6
-    [.ints 0 3 0, .ints 0 3 0, .ints 0 3 2, .ints 0 3 2, .ints 0 3 0, .ints 0 3 1] = .ok (o, t') ∧
-    o.res.b1 = ⟨0, 1, 4, 4⟩ ∧ o.res.outOfTries = false := ⟨_, _, by decide, by decide, by decide⟩
+/-- 6×6 image, 4×4 crops, overlap ≥ 1/2: the first candidate (2,2) overlaps 1/7 and is retried, the second (0,1) is taken -/
+example : (match twoCrop ⟨4, 4, .none, false⟩ (1 / 2) 1 (some 3) 10 6 6
+    [.ints 0 3 0, .ints 0 3 0, .ints 0 3 2, .ints 0 3 2, .ints 0 3 0, .ints 0 3 1] with
+    | .ok (o, _) => decide (o.res.b1 = ⟨0, 1, 4, 4⟩) && !o.res.outOfTries && decide (o.res.overlap = 3 / 5)
+    | .error _ => false) = true := by decide +kernel
 
 /-- the intersection area is never negative … -/
 theorem interArea_nonneg (a b : Box) : 0 ≤ interArea a b := by
@@ -263,6 +266,12 @@ theorem rrc_accept_in_bounds (W H : Int) (r0 r1 : Rat) (props ps : List (Int × 
       obtain ⟨rfl, _⟩ := hr
       exact rrcLoop_ok W H _ _ _ _ _ _ hl
 
+/-- 10×10 image: the first proposal (12 wide) is rejected, the second (4×5) accepted at the drawn offsets -/
+example : (match rrc 10 10 (3 / 4) (4 / 3) [(12, 5), (4, 5)] ⟨1, 0, 0⟩
+      [.unif 0, .unif 0, .unif 0, .unif 0, .ints 0 6 2, .ints 0 7 3] with
+    | .ok (o, _, _) => decide (o.box = ⟨2, 3, 5, 4⟩) && !o.fallback
+    | .error _ => false) = true := by decide +kernel
+
 /-- the float front end of the fallback branch is *order-faithful*: a correctly rounded quotient / product never crosses an
     integer or a representable bound the exact value does not cross -/
 structure FrontOk (W H : Int) (r0 r1 : Rat) (fe : RrcFront) : Prop where
@@ -343,14 +352,524 @@ theorem rrc_fallback_positive_partial (W H : Int) (r0 r1 : Rat) (fe : RrcFront) 
       omega
 
 /-- the excluded corner of `rrc_fallback_positive_partial` is real: ratio `(3, 4)`, image `W = 1`, `H = 100` -/
-example : (rrcFallback 1 100 3 4 ⟨1 / 100, 1 / 3, 400⟩).h = 0 := by decide
+example : (rrcFallback 1 100 3 4 ⟨1 / 100, 1 / 3, 400⟩).h = 0 := by decide +kernel
 
 example : FrontOk 4 3 (3 / 4) (4 / 3) ⟨4 / 3, 16 / 3, 4⟩ := by
-  have e1 : rmin (3 / 4 : Rat) (4 / 3) = 3 / 4 := by decide
-  have e2 : rmax (3 / 4 : Rat) (4 / 3) = 4 / 3 := by decide
-  constructor <;> rw [e1] <;> try rw [e2]
-  all_goals norm_num
-  all_goals intro n hn
-  all_goals linarith
+  have e1 : rmin (3 / 4 : Rat) (4 / 3) = 3 / 4 := by decide +kernel
+  have e2 : rmax (3 / 4 : Rat) (4 / 3) = 4 / 3 := by decide +kernel
+  constructor <;> simp only [e1, e2] <;> norm_num
+
+/-! ### KDRandomErasing -/
+
+theorem eraseRect_ok (H W : Int) (st : Bool) : ∀ (n : Nat) (ps ps' : List (Int × Int)) (t t' : Tape) (b : Box),
+    eraseRect H W st n ps t = .ok (some b, ps', t') → b.inside H W ∧ b.h < H ∧ b.w < W := by
+  intro n
+  induction n with
+  | zero => intro ps ps' t t' b h; simp [eraseRect] at h
+  | succ n ih =>
+    intro ps ps' t t' b h
+    cases ps with
+    | nil => simp [eraseRect] at h
+    | cons p ps =>
+      obtain ⟨hh, w⟩ := p
+      unfold eraseRect at h
+      cases h1 : drawUnif t with
+      | error e => simp [h1] at h
+      | ok x1 =>
+        obtain ⟨_, t1⟩ := x1
+        simp only [h1] at h
+        cases h2 : drawUnif t1 with
+        | error e => simp [h2] at h
+        | ok x2 =>
+          obtain ⟨_, t2⟩ := x2
+          simp only [h2] at h
+          by_cases ha : w < W ∧ hh < H
+          · simp only [ha, and_self, if_true] at h
+            cases h3 : drawInt 0 (H - hh + 1) t2 with
+            | error e => simp [h3] at h
+            | ok x3 =>
+              obtain ⟨i, t3⟩ := x3
+              simp only [h3] at h
+              cases h4 : drawInt 0 (W - w + 1) t3 with
+              | error e => simp [h4] at h
+              | ok x4 =>
+                obtain ⟨j, t4⟩ := x4
+                simp only [h4] at h
+                cases h5 : drawReplacement st t4 with
+                | error e => simp [h5] at h
+                | ok t5 =>
+                  simp only [h5, Except.ok.injEq, Prod.mk.injEq, Option.some.injEq] at h
+                  obtain ⟨rfl, _⟩ := h
+                  have d3 := drawInt_ok h3
+                  have d4 := drawInt_ok h4
+                  refine ⟨⟨?_, ?_, ?_, ?_⟩, ?_, ?_⟩ <;> dsimp only <;> omega
+          · simp only [ha, if_false] at h
+            exact ih _ _ _ _ _ h
+
+theorem eraseRects_ok (H W : Int) (st : Bool) : ∀ (n : Nat) (ps ps' : List (Int × Int)) (t t' : Tape) (bs : List Box),
+    eraseRects H W st n ps t = .ok (bs, ps', t') →
+      bs.length ≤ n ∧ ∀ b ∈ bs, b.inside H W ∧ b.h < H ∧ b.w < W := by
+  intro n
+  induction n with
+  | zero =>
+    intro ps ps' t t' bs h
+    simp only [eraseRects, Except.ok.injEq, Prod.mk.injEq] at h
+    obtain ⟨rfl, _⟩ := h
+    simp
+  | succ n ih =>
+    intro ps ps' t t' bs h
+    unfold eraseRects at h
+    cases h1 : eraseRect H W st 10 ps t with
+    | error e => simp [h1] at h
+    | ok x =>
+      obtain ⟨ob, ps1, t1⟩ := x
+      simp only [h1] at h
+      cases h2 : eraseRects H W st n ps1 t1 with
+      | error e => simp [h2] at h
+      | ok y =>
+        obtain ⟨bs2, ps2, t2⟩ := y
+        simp only [h2, Except.ok.injEq, Prod.mk.injEq] at h
+        obtain ⟨rfl, _⟩ := h
+        have i2 := ih _ _ _ _ _ h2
+        cases ob with
+        | none => simp only [Option.toList_none, List.nil_append]; exact ⟨by omega, i2.2⟩
+        | some b =>
+          have i1 := eraseRect_ok H W st _ _ _ _ _ _ h1
+          simp only [Option.toList_some, List.cons_append, List.nil_append, List.length_cons, List.mem_cons]
+          refine ⟨by omega, ?_⟩
+          intro b' hb'
+          rcases hb' with rfl | hb'
+          · exact i1
+          · exact i2.2 b' hb'
+
+/-- **Erase boxes in bounds**: every rectangle erased by `KDRandomErasing` lies inside the image and is strictly smaller
+    than it in both dimensions; at most `n_rects` rectangles are erased (for every front-end proposal list and every tape). -/
+theorem erase_boxes_in_bounds (c : EraseCfg) (H W : Int) (props ps : List (Int × Int)) (t t' : Tape) (o : EraseOut)
+    (hr : erasing c H W props t = .ok (o, ps, t')) :
+    o.boxes.length ≤ o.nRects.toNat ∧ ∀ b ∈ o.boxes, b.inside H W ∧ b.h < H ∧ b.w < W := by
+  unfold erasing at hr
+  cases h1 : applyDraw c.p t with
+  | error e => simp [h1] at hr
+  | ok x =>
+    obtain ⟨ap, t1⟩ := x
+    cases ap with
+    | false =>
+      simp only [h1, Except.ok.injEq, Prod.mk.injEq] at hr
+      obtain ⟨rfl, _⟩ := hr
+      simp
+    | true =>
+      simp only [h1] at hr
+      cases h2 : (if c.minCount = c.maxCount then (Except.ok (c.minCount, t1) : Except Err (Int × Tape))
+          else drawInt c.minCount c.maxCount t1) with
+      | error e => simp [h2] at hr
+      | ok y =>
+        obtain ⟨n, t2⟩ := y
+        simp only [h2] at hr
+        by_cases hn : n = 0
+        · simp [hn] at hr
+        · simp only [hn, if_false] at hr
+          cases h3 : eraseRects H W c.stochastic n.toNat props t2 with
+          | error e => simp [h3] at hr
+          | ok z =>
+            obtain ⟨bs, ps3, t3⟩ := z
+            simp only [h3, Except.ok.injEq, Prod.mk.injEq] at hr
+            obtain ⟨rfl, _⟩ := hr
+            exact eraseRects_ok H W _ _ _ _ _ _ _ h3
+
+example : (match erasing ⟨1, 1, 1, false⟩ 8 8 [(9, 2), (3, 4)] [.rand (1 / 2), .unif 0, .unif 0, .unif 0, .unif 0,
+      .ints 0 6 5, .ints 0 5 1] with
+    | .ok (o, _, _) => decide (o.boxes = [⟨5, 1, 3, 4⟩])
+    | .error _ => false) = true := by decide +kernel
+
+/-! ### KDSpecAugment -/
+
+/-- **Spec-augment mask**: the masked positions of an axis all lie inside the axis, there are fewer than `mask_param` of
+    them, they are exactly the positions `start ≤ k < stop` of the axis and `stop - start = value.long()` — for every pair
+    of front-end integers (the code's `assert` is the only filter). -/
+theorem spec_mask_len_lt_param (size : Nat) (P : Int) (fe : Int × Int) (t t' : Tape) (m : SpecMask)
+    (h : specAxis size P fe t = .ok (some m, t')) :
+    (m.idx.length : Int) < P ∧ (∀ k ∈ m.idx, k < size) ∧ m.idx = maskIdx size m.start m.stop ∧
+      m.stop - m.start = fe.1 ∧ m.start = fe.2 ∧ (m.idx.length : Int) ≤ imax 0 fe.1 := by
+  unfold specAxis at h
+  by_cases hP : P < 1
+  · simp [hP] at h
+  · simp only [hP, if_false] at h
+    cases h1 : drawRand t with
+    | error e => simp [h1] at h
+    | ok x1 =>
+      obtain ⟨_, t1⟩ := x1
+      simp only [h1] at h
+      cases h2 : drawRand t1 with
+      | error e => simp [h2] at h
+      | ok x2 =>
+        obtain ⟨_, t2⟩ := x2
+        simp only [h2] at h
+        have hrw : (fe.2 + fe.1 - fe.2 < P) ↔ fe.1 < P := by constructor <;> intro _ <;> omega
+        simp only [hrw] at h
+        by_cases ha : fe.1 < P
+        · simp only [ha, not_true_eq_false, if_false, Except.ok.injEq, Prod.mk.injEq, Option.some.injEq] at h
+          obtain ⟨rfl, _⟩ := h
+          have hl := maskIdx_length size fe.2 (fe.2 + fe.1)
+          refine ⟨?_, ?_, rfl, ?_, rfl, ?_⟩
+          · dsimp only; rw [hl]; unfold imax imin; split_ifs <;> omega
+          · intro k hk; exact (mem_maskIdx.1 hk).1
+          · dsimp only; omega
+          · dsimp only; rw [hl]; unfold imax imin; split_ifs <;> omega
+        · simp [ha] at h
+
+/-- under the front end's contract (`0 ≤ min_value.long()`, `min_value.long() + value.long() ≤ size`, `0 ≤ value.long()`)
+    the mask is the full interval: exactly `value.long()` positions -/
+theorem spec_mask_exact (size : Nat) (P : Int) (fe : Int × Int) (t t' : Tape) (m : SpecMask)
+    (h : specAxis size P fe t = .ok (some m, t')) (h0 : 0 ≤ fe.2) (hv : 0 ≤ fe.1) (h1 : fe.2 + fe.1 ≤ size) :
+    (m.idx.length : Int) = fe.1 := by
+  have s := spec_mask_len_lt_param size P fe t t' m h
+  rw [s.2.2.1, maskIdx_length]
+  have a := s.2.2.2.1
+  have b := s.2.2.2.2.1
+  unfold imax imin; split_ifs <;> omega
+
+example : (match specAxis 10 4 (3, 5) [.rand (1 / 2), .rand (1 / 2)] with
+    | .ok (some m, _) => decide (m.idx = [5, 6, 7])
+    | _ => false) = true := by decide +kernel
+
+/-! ### semantic segmentation: crop / pad / multi-crop -/
+
+theorem semsegCropParams_ok (H W th tw : Int) (t t' : Tape) (b : Box)
+    (h : semsegCropParams H W th tw t = .ok (b, t')) :
+    b.inside H W ∧ b.h = imin H th ∧ b.w = imin W tw := by
+  unfold semsegCropParams at h
+  cases h1 : drawInt 0 (imax 0 (H - th) + 1) t with
+  | error e => simp [h1] at h
+  | ok x1 =>
+    obtain ⟨i, t1⟩ := x1
+    simp only [h1] at h
+    cases h2 : drawInt 0 (imax 0 (W - tw) + 1) t1 with
+    | error e => simp [h2] at h
+    | ok x2 =>
+      obtain ⟨j, t2⟩ := x2
+      simp only [h2, Except.ok.injEq, Prod.mk.injEq] at h
+      obtain ⟨rfl, _⟩ := h
+      have d1 := drawInt_ok h1
+      have d2 := drawInt_ok h2
+      unfold imax at d1 d2
+      refine ⟨⟨?_, ?_, ?_, ?_⟩, rfl, rfl⟩ <;> dsimp only <;> (try unfold imin) <;> split_ifs at * <;> omega
+
+theorem semsegRetry_ok (H W th tw : Int) : ∀ (n : Nat) (oks oks' : List Bool) (b0 b : Box) (t t' : Tape),
+    (b0.inside H W ∧ b0.h = imin H th ∧ b0.w = imin W tw) →
+    semsegRetry H W th tw n oks b0 t = .ok (b, oks', t') → b.inside H W ∧ b.h = imin H th ∧ b.w = imin W tw := by
+  intro n
+  induction n with
+  | zero =>
+    intro oks oks' b0 b t t' h0 h
+    simp only [semsegRetry, Except.ok.injEq, Prod.mk.injEq] at h
+    obtain ⟨rfl, _⟩ := h
+    exact h0
+  | succ n ih =>
+    intro oks oks' b0 b t t' h0 h
+    cases oks with
+    | nil => simp [semsegRetry] at h
+    | cons ok oks =>
+      unfold semsegRetry at h
+      cases ok with
+      | true =>
+        simp only [if_true, Except.ok.injEq, Prod.mk.injEq] at h
+        obtain ⟨rfl, _⟩ := h
+        exact h0
+      | false =>
+        simp only [Bool.false_eq_true, if_false] at h
+        cases h1 : semsegCropParams H W th tw t with
+        | error e => simp [h1] at h
+        | ok x =>
+          obtain ⟨b1, t1⟩ := x
+          simp only [h1] at h
+          exact ih _ _ _ _ _ _ (semsegCropParams_ok H W th tw _ _ _ h1) h
+
+/-- **Segmentation crop in bounds**: the one box applied to image and mask lies inside the image and has size
+    `(min(H, th), min(W, tw))`, also after any number of category-ratio retries. -/
+theorem semseg_crop_in_bounds (H W th tw : Int) (retry : Bool) (oks oks' : List Bool) (t t' : Tape) (b : Box)
+    (h : semsegCrop H W th tw retry oks t = .ok (b, oks', t')) :
+    b.inside H W ∧ b.h = imin H th ∧ b.w = imin W tw := by
+  unfold semsegCrop at h
+  cases h1 : semsegCropParams H W th tw t with
+  | error e => simp [h1] at h
+  | ok x =>
+    obtain ⟨b1, t1⟩ := x
+    simp only [h1] at h
+    have i1 := semsegCropParams_ok H W th tw _ _ _ h1
+    cases retry with
+    | true =>
+      simp only [if_true] at h
+      exact semsegRetry_ok H W th tw _ _ _ _ _ _ _ i1 h
+    | false =>
+      simp only [Bool.false_eq_true, if_false, Except.ok.injEq, Prod.mk.injEq] at h
+      obtain ⟨rfl, _⟩ := h
+      exact i1
+
+example : semsegCrop 5 9 4 4 true [false, true] [.ints 0 2 1, .ints 0 6 5, .ints 0 2 0, .ints 0 6 2]
+    = .ok (⟨0, 2, 4, 4⟩, [], []) := by rfl
+
+/-- **Segmentation pad reaches the size**: the padded image is exactly `max(H, th) × max(W, tw)`, all amounts are
+    non-negative and top/bottom (left/right) differ by at most one pixel (the extra pixel goes to the bottom / right). -/
+theorem semseg_pad_reaches_size (H W th tw : Int) :
+    let p := semsegPad H W th tw
+    H + p.t + p.b = imax H th ∧ W + p.l + p.r = imax W tw ∧
+      0 ≤ p.l ∧ 0 ≤ p.t ∧ p.l ≤ p.r ∧ p.r ≤ p.l + 1 ∧ p.t ≤ p.b ∧ p.b ≤ p.t + 1 := by
+  simp only [semsegPad]
+  unfold imax
+  refine ⟨?_, ?_, ?_, ?_, ?_, ?_, ?_, ?_⟩ <;> split_ifs <;> omega
+
+theorem length_grid {β : Type} (r c : Nat) (f : Nat → Nat → β) :
+    ((List.range r).flatMap (fun i => (List.range c).map (f i))).length = r * c := by
+  induction r with
+  | zero => simp
+  | succ n ih =>
+    rw [List.range_succ, List.flatMap_append, List.length_append, ih]
+    simp [Nat.succ_mul]
+
+/-- **Overlapped multi-crop grid in bounds**: every crop box of the half-overlapping grid lies inside the image and has
+    the crop size; there are `(2H/ch - 1)·(2W/cw - 1)` of them. -/
+theorem multi_crop_in_bounds (H W ch cw : Int) (bs : List Box) (hH : 0 < H) (hW : 0 < W)
+    (h : multiCropGrid H W ch cw = .ok bs) :
+    (∀ b ∈ bs, b.inside H W ∧ b.h = ch ∧ b.w = cw) ∧
+      (bs.length : Int) = (2 * H / ch - 1) * (2 * W / cw - 1) := by
+  unfold multiCropGrid at h
+  by_cases h0 : ch % 2 ≠ 0 ∨ cw % 2 ≠ 0 ∨ ch ≤ 0 ∨ cw ≤ 0
+  · simp [h0] at h
+  · simp only [h0, if_false] at h
+    by_cases h1 : H % ch ≠ 0 ∨ W % cw ≠ 0
+    · simp [h1] at h
+    · simp only [h1, if_false, Except.ok.injEq] at h
+      subst h
+      have hch : ch = 2 * (ch / 2) := by omega
+      have hcw : cw = 2 * (cw / 2) := by omega
+      obtain ⟨qh, hqh⟩ : ∃ q, H = ch * q := ⟨H / ch, by
+        have := Int.emod_add_mul_ediv H ch; have h1' : H % ch = 0 := by omega
+        rw [h1'] at this; omega⟩
+      obtain ⟨qw, hqw⟩ : ∃ q, W = cw * q := ⟨W / cw, by
+        have := Int.emod_add_mul_ediv W cw; have h1' : W % cw = 0 := by omega
+        rw [h1'] at this; omega⟩
+      generalize hoh : ch / 2 = oh at *
+      generalize how : cw / 2 = ow at *
+      have hoh0 : 0 < oh := by omega
+      have how0 : 0 < ow := by omega
+      have hqh0 : 0 < qh := by
+        rcases lt_or_ge 0 qh with h | h
+        · exact h
+        · have : ch * qh ≤ 0 := by nlinarith
+          omega
+      have hqw0 : 0 < qw := by
+        rcases lt_or_ge 0 qw with h | h
+        · exact h
+        · have : cw * qw ≤ 0 := by nlinarith
+          omega
+      have e1 : (H - ch) / oh = 2 * qh - 2 := by
+        have : H - ch = oh * (2 * qh - 2) := by rw [hqh, hch]; ring
+        rw [this, Int.mul_ediv_cancel_left _ (by omega)]
+      have e2 : (W - cw) / ow = 2 * qw - 2 := by
+        have : W - cw = ow * (2 * qw - 2) := by rw [hqw, hcw]; ring
+        rw [this, Int.mul_ediv_cancel_left _ (by omega)]
+      have e3 : 2 * H / ch = 2 * qh := by
+        have : 2 * H = ch * (2 * qh) := by rw [hqh]; ring
+        rw [this, Int.mul_ediv_cancel_left _ (by omega)]
+      have e4 : 2 * W / cw = 2 * qw := by
+        have : 2 * W = cw * (2 * qw) := by rw [hqw]; ring
+        rw [this, Int.mul_ediv_cancel_left _ (by omega)]
+      rw [e1, e2]
+      constructor
+      · intro b hb
+        simp only [List.mem_flatMap, List.mem_range, List.mem_map] at hb
+        obtain ⟨i, hi, j, hj, rfl⟩ := hb
+        have hi' : (i : Int) ≤ 2 * qh - 2 := by omega
+        have hj' : (j : Int) ≤ 2 * qw - 2 := by omega
+        have m1 : (i : Int) * oh ≤ (2 * qh - 2) * oh := Int.mul_le_mul_of_nonneg_right hi' (by omega)
+        have m2 : (j : Int) * ow ≤ (2 * qw - 2) * ow := Int.mul_le_mul_of_nonneg_right hj' (by omega)
+        have m3 : 0 ≤ (i : Int) * oh := Int.mul_nonneg (by omega) (by omega)
+        have m4 : 0 ≤ (j : Int) * ow := Int.mul_nonneg (by omega) (by omega)
+        have n1 : (2 * qh - 2) * oh + ch = H := by rw [hqh, hch]; ring
+        have n2 : (2 * qw - 2) * ow + cw = W := by rw [hqw, hcw]; ring
+        refine ⟨⟨?_, ?_, ?_, ?_⟩, rfl, rfl⟩ <;> dsimp only <;> omega
+      · rw [e3, e4]
+        rw [length_grid]
+        push_cast
+        rw [Int.toNat_of_nonneg (by omega : (0 : Int) ≤ 1 + (2 * qh - 2)),
+          Int.toNat_of_nonneg (by omega : (0 : Int) ≤ 1 + (2 * qw - 2))]
+        ring
+
+example : multiCropGrid 4 6 2 2 = .ok ((List.range 3).flatMap (fun (i : Nat) =>
+    (List.range 5).map (fun (j : Nat) => (⟨(i : Int) * 1, (j : Int) * 1, 2, 2⟩ : Box)))) := by rfl
+
+/-! ### applying recorded parameters to a grid; pairs -/
+
+/-- **Requested output size on grids**: cropping an `H × W` grid with a box inside it gives exactly `h × w`; constant
+    padding gives `(H+t+b) × (W+l+r)`; a horizontal flip keeps the shape. -/
+theorem grid_ops_shape {α : Type} (g : Grid α) (H W : Nat) (hg : g.Shaped H W) :
+    (∀ i j h w, i + h ≤ H → j + w ≤ W → (g.crop i j h w).Shaped h w) ∧
+    (∀ l t r b fill, 0 < H → (g.pad l t r b fill).Shaped (H + t + b) (W + l + r)) ∧
+    g.hflip.Shaped H W :=
+  ⟨fun i j h w hi hj => Grid.crop_shaped g H W i j h w hg hi hj,
+   fun l t r b fill hH => Grid.pad_shaped g H W l t r b fill hg hH,
+   Grid.hflip_shaped g H W hg⟩
+
+/-- **One parameter tuple for both members (structural)**: running a list of geometric operations on a pair is running
+    the same list, with the same parameters, on the image and on the mask. -/
+theorem pair_same_parameters {α : Type} (fx fs : α) (ops : List PairOp) (p : Grid α × Grid α) :
+    runPair fx fs ops p = (ops.foldl (fun g op => applyOp fx op g) p.1, ops.foldl (fun g op => applyOp fs op g) p.2) := by
+  induction ops generalizing p with
+  | nil => rfl
+  | cons op ops ih =>
+    simp only [runPair, List.foldl_cons] at ih ⊢
+    rw [ih]
+    rfl
+
+/-- **Pair geometry identical**: if every mask cell is a function `f` of the image cell at the same position before the
+    pipeline (and the fill values correspond), it is the same function of the image cell at the same position after it —
+    image and mask stay aligned through any sequence of crops, pads and flips. -/
+theorem pair_same_geometry {α : Type} (f : α → α) (fx : α) (ops : List PairOp) (g : Grid α) :
+    (runPair fx (f fx) ops (g, Grid.relabel f g)).2 = Grid.relabel f (runPair fx (f fx) ops (g, Grid.relabel f g)).1 := by
+  rw [pair_same_parameters]
+  simp only
+  induction ops generalizing g with
+  | nil => rfl
+  | cons op ops ih =>
+    simp only [List.foldl_cons]
+    rw [applyOp_relabel]
+    exact ih _
+
+example : runPair 0 (-1 : Int) [.pad 1 0 0 0, .crop 0 0 1 2, .hflip] ([[10, 20]], [[1, 2]])
+    = ([[10, 0]], [[1, -1]]) := by decide
+
+/-! ### patchify / unpatchify -/
+
+/-- **`rearrange (swap p) ∘ rearrange p = id`** for every well-formed pattern, all axis sizes and every element position
+    of the input tensor; the image of a position is a position of the output tensor. -/
+theorem rearrange_swap_inverse (p : Pattern) (hp : p.WellFormed) (s : Sizes) (i : Nat)
+    (hi : i < prodSizes s p.lhs.flatten) :
+    rearrange p s i < prodSizes s p.rhs.flatten ∧ rearrange p.swap s (rearrange p s i) = i :=
+  ⟨rearrange_lt p hp s i hi, rearrange_swap p hp s i hi⟩
+
+/-- the number of elements of a tensor whose shape is one side of the pattern -/
+theorem shape_total (s : Sizes) (side : List (List Axis)) :
+    (shapeOf s side).foldr (· * ·) 1 = prodSizes s side.flatten := by
+  induction side with
+  | nil => rfl
+  | cons g rest ih =>
+    simp only [shapeOf, List.map_cons, List.foldr_cons, List.flatten_cons] at ih ⊢
+    rw [ih]
+    induction g with
+    | nil => simp [prodSizes]
+    | cons a g ihg => simp only [prodSizes, List.cons_append]; rw [← ihg]; ring
+
+open KDVerif.Gen.Patterns in
+/-- **unpatchify ∘ patchify = id** (`PatchifyImage` / `UnpatchifyImage`, pattern strings as they are in the code now):
+    for all sizes of `c, lh, ph, lw, pw` — i.e. for every image whose height and width are multiples of the patch size —
+    every element returns to its position. -/
+theorem unpatchify_image_patchify_image_id (s : Sizes) (i : Nat) (hi : i < s "c" * ((s "lh" * s "ph") * (s "lw" * s "pw"))) :
+    rearrange unpatchifyImage s (rearrange patchifyImage s i) = i := by
+  rw [unpatchifyImage_is_swap]
+  apply rearrange_swap _ patchifyImage_wf
+  have := shape_total s patchifyImage.lhs
+  rw [patchifyImage_lhs_shape] at this
+  rw [← this]
+  simp only [List.foldr_cons, List.foldr_nil]
+  calc i < s "c" * ((s "lh" * s "ph") * (s "lw" * s "pw")) := hi
+    _ = _ := by ring
+
+open KDVerif.Gen.Patterns in
+/-- the same for `Patchify` / `Unpatchify` and for the two rearrangements inside `PatchwiseTransform` -/
+theorem unpatchify_patchify_id (s : Sizes) (i : Nat) (hi : i < prodSizes s patchify.lhs.flatten) :
+    rearrange unpatchify s (rearrange patchify s i) = i ∧
+      (∀ k, k < prodSizes s patchwiseFlatten.lhs.flatten →
+        rearrange patchwiseUnflatten s (rearrange patchwiseFlatten s k) = k) := by
+  constructor
+  · rw [unpatchify_is_swap]; exact rearrange_swap _ patchify_wf s i hi
+  · intro k hk; rw [patchwiseUnflatten_is_swap]; exact rearrange_swap _ patchwiseFlatten_wf s k hk
+
+example : rearrange KDVerif.Gen.Patterns.patchifyImage
+    (sizesOf [("c", 1), ("lh", 2), ("ph", 2), ("lw", 2), ("pw", 2)]) 2 = 4 := by decide
+
+/-! ### patch shuffles -/
+
+/-- **`gather (inverse π) ∘ gather π = id`** for every permutation `π` of the patch positions (`PatchwiseShuffle`
+    records `π`; un-shuffling with `argsort π` restores the patch sequence — also between patchify and unpatchify). -/
+theorem shuffle_then_unshuffle {α : Type} (xs : List α) (perm : List Nat) (hp : perm.Perm (List.range xs.length)) :
+    ∃ ys, gather xs perm = some ys ∧ ys.length = xs.length ∧ gather ys (invPerm perm) = some xs := by
+  have hlen : perm.length = xs.length := by simpa using hp.length_eq
+  have hmem : ∀ k, k ∈ perm ↔ k < xs.length := fun k => by rw [hp.mem_iff]; simp
+  obtain ⟨ys, hy, hyl, hyg⟩ := gather_spec xs perm (fun k hk => (hmem k).1 hk)
+  refine ⟨ys, hy, by omega, ?_⟩
+  have hinv : ∀ k ∈ invPerm perm, k < ys.length := by
+    intro k hk
+    simp only [invPerm, List.mem_map, List.mem_range] at hk
+    obtain ⟨m, hm, rfl⟩ := hk
+    rw [hyl]
+    exact List.idxOf_lt_length_of_mem ((hmem m).2 (by omega))
+  obtain ⟨zs, hz, hzl, hzg⟩ := gather_spec ys (invPerm perm) hinv
+  rw [hz]
+  congr 1
+  apply List.ext_getElem?
+  intro m
+  have hil : (invPerm perm).length = xs.length := by simp [invPerm, hlen]
+  by_cases hm : m < xs.length
+  · have hm' : m < (invPerm perm).length := by omega
+    rw [hzg m hm']
+    have e1 : (invPerm perm)[m] = perm.idxOf m := by simp [invPerm]
+    rw [e1]
+    have hidx : perm.idxOf m < perm.length := List.idxOf_lt_length_of_mem ((hmem m).2 hm)
+    rw [hyg _ hidx, List.getElem_idxOf hidx]
+  · rw [List.getElem?_eq_none (by omega), List.getElem?_eq_none (by omega)]
+
+example : gather ["a", "b", "c"] [2, 0, 1] = some ["c", "a", "b"] ∧ invPerm [2, 0, 1] = [1, 2, 0] ∧
+    gather ["c", "a", "b"] [1, 2, 0] = some ["a", "b", "c"] := by decide
+
+/-! ### normalise / denormalise -/
+
+/-- **`denorm ∘ norm = id`** for every mean and every non-zero std (the code's two-step denormalisation) -/
+theorem denorm_norm_id (m s x : Rat) (hs : s ≠ 0) : denormalize m s (normalize m s x) = x := by
+  unfold denormalize normalize
+  field_simp
+  ring
+
+/-- … and `norm ∘ denorm = id` -/
+theorem norm_denorm_id (m s x : Rat) (hs : s ≠ 0) : normalize m s (denormalize m s x) = x := by
+  unfold denormalize normalize
+  field_simp
+  ring
+
+/-- per channel on whole images -/
+theorem denorm_norm_channels_id (ms ss : List Rat) (img : List (List Rat)) (hs : ∀ s ∈ ss, s ≠ 0)
+    (hl1 : ms.length = img.length) (hl2 : ss.length = img.length) :
+    ∃ y, normChannels ms ss img = some y ∧ denormChannels ms ss y = some img := by
+  induction img generalizing ms ss with
+  | nil =>
+    cases ms with
+    | nil => cases ss with
+      | nil => exact ⟨[], rfl, rfl⟩
+      | cons _ _ => simp at hl2
+    | cons _ _ => simp at hl1
+  | cons ch chs ih =>
+    cases ms with
+    | nil => simp at hl1
+    | cons m ms =>
+      cases ss with
+      | nil => simp at hl2
+      | cons s ss =>
+        obtain ⟨y, hy1, hy2⟩ := ih ms ss (fun x hx => hs x (by simp [hx])) (by simpa using hl1) (by simpa using hl2)
+        refine ⟨ch.map (normalize m s) :: y, ?_, ?_⟩
+        · simp only [normChannels, mapChannels] at hy1 ⊢
+          rw [hy1]; rfl
+        · simp only [denormChannels, mapChannels] at hy2 ⊢
+          rw [hy2]
+          simp only [Option.map_some, List.map_map]
+          congr 2
+          rw [List.map_congr_left (g := id)]
+          · simp
+          · intro x _
+            exact denorm_norm_id m s x (hs s (by simp))
+
+/-- `KDImageRangeNorm` -/
+theorem range_denorm_norm_id (x : Rat) : rangeDenormalize (rangeNormalize x) = x := by
+  unfold rangeDenormalize rangeNormalize normalize
+  ring
+
 
 end KDVerif.C14
